@@ -15,6 +15,7 @@ import numpy as np
 import polars as pl
 import z3
 
+from symx import core as C
 from symx import harness, load, rotation, stubs
 from symx.arrays import SymArray, to_symarray, _obj
 from symx.core import Sym, explore, integer, lift, real, _real, _coerce
@@ -386,6 +387,84 @@ def sec_pairs(rec, n=3, keys=(2, 0, 1), first=None, patches=None):
                     check_result(rec, tag, res, mode, "C12/pair", replay_table)
 
 
+def replay_history(cex):
+    with load.real_modules():
+        return _replay_history(cex)
+
+
+def _replay_history(cex):
+    """installed library: table operation, then an in-place append on the same object, then every table operation again"""
+    import polars as pl
+    from acryo import Molecules
+    from scipy.spatial.transform import Rotation
+
+    def mk(n, keys, off=0):
+        pos = np.array([[i + off, 0, 0] for i in range(n)], dtype=np.float32)
+        rot = Rotation.from_rotvec([[0.1 * (i + off) + 0.05, 0, 0] for i in range(n)])
+        return Molecules(pos, rot, features={"a": keys[:n], "row": [float(i + off) for i in range(n)]})
+
+    bad = []
+    readers = {"filter": lambda m: m.filter(pl.col("a") >= 0), "sort": lambda m: m.sort("a"), "head": lambda m: m.head(10), "tail": lambda m: m.tail(10), "to_dataframe": lambda m: Molecules.from_dataframe(m.to_dataframe()),
+               "group_by": lambda m: Molecules.concat([g for _, g in m.group_by("a")]), "subset": lambda m: m.subset(slice(None)), "sample": lambda m: m.sample(len(m), seed=0)}
+    for n1, f1 in readers.items():
+        for n2, f2 in readers.items():
+            m = mk(3, [2, 0, 1])
+            f1(m)
+            m.append(mk(2, [5, 6], off=3))
+            try:
+                out = f2(m)
+            except Exception as e:
+                bad.append({"first": n1, "then_append_then": n2, "raised": repr(e)[:120]})
+                continue
+            rows = sorted(out.features["row"].to_list())
+            posx = sorted(float(v) for v in out.pos[:, 0])
+            if rows != [0.0, 1.0, 2.0, 3.0, 4.0] or posx != rows:
+                bad.append({"first": n1, "then_append_then": n2, "rows": rows, "positions": posx})
+    return len(bad) > 0, {"n": len(bad), "examples": bad[:4]}
+
+
+def sec_history(rec, n=3, keys=(2, 0, 1), firsts=None, patches=None):
+    """an operation (result discarded), then an in-place append on the same object, then every operation: the second one must see the appended rows"""
+    L = _load(patches)
+    MC = L["acryo.molecules.core"]
+    rec.encodes("acryo/molecules/core.py:Molecules.append (in place)", "acryo/molecules/core.py:Molecules.to_dataframe")
+    firsts = firsts if firsts is not None else list(range(len(SINGLE_OPS)))
+    with L.installed():
+        for i in firsts:
+            n1, f1 = SINGLE_OPS[i]
+            for j, (n2, f2) in enumerate(SINGLE_OPS):
+                tag = f"history[n={n}]/{n1} ; append ; {n2}"
+
+                def run():
+                    t = make_table(MC, n, list(keys))
+                    f1(MC, t)
+                    other = make_table(MC, 2, [5, 6], prefix="o")
+                    t.mol.append(other.mol)
+                    t2 = Tab(t.mol, t.ids + other.ids, {k: t.feats[k] + other.feats[k] for k in t.feats})
+                    return f2(MC, t2)
+
+                try:
+                    paths = explore(run, max_paths=50)
+                except C.Unsupported as e:
+                    # the engine met a state it has no encoding for (e.g. a table rebuilt from stale cached columns): a violation only if the
+                    # same history goes wrong on the installed library
+                    ok, det = replay_history({})
+                    rec.fact(f"{tag}/runs", False, key="C12/history/wrong-rows", detail={"engine": repr(e)[:200], **det}, reproduced=ok)
+                    continue
+                for pth in paths:
+                    if not pth.ok:
+                        rec.fact(f"{tag}/runs", False, key="C12/op-raises", detail={"exc": repr(pth.exc)[:300]}, reproduced=replay_history({})[0])
+                        continue
+                    res, mode = pth.result
+                    if mode == "skip":
+                        continue
+                    try:
+                        check_result(rec, tag, res, mode, "C12/history", replay_history)
+                    except C.Unsupported as e:
+                        ok, det = replay_history({})
+                        rec.fact(f"{tag}/result-readable", False, key="C12/history/wrong-rows", detail={"engine": repr(e)[:200], **det}, reproduced=ok)
+
+
 def sec_symbolic_index(rec, patches=None):
     """subset(i) / head(n) / tail(n) with a symbolic integer argument: forks over every value class"""
     L = _load(patches)
@@ -515,6 +594,8 @@ def sections(tier):
     S.append(("single-n0", "checks.c12", "sec_single", {"n": 0, "keys": ()}))
     for lo in range(0, nops, 2):
         S.append((f"pairs-{lo}", "checks.c12", "sec_pairs", {"n": 3, "keys": (2, 0, 1), "first": list(range(lo, min(lo + 2, nops)))}))
+    for lo in range(0, nops, 3):
+        S.append((f"history-{lo}", "checks.c12", "sec_history", {"n": 3, "keys": (2, 0, 1), "firsts": list(range(lo, min(lo + 3, nops)))}))
     return S
 
 
